@@ -1536,53 +1536,61 @@ func runCase(c Case, scratch string) *Result {
 		finish(false, nil)
 		return res
 	}
-	// 2. with the observer gone nobody can hold a lock: the code's own timed acquisition has to succeed.
-	//    Guarded by canary rounds because a mutated acquisition might block.
+	// 2. with the observer gone nobody can hold a lock. The final values are read through GetState() (its
+	//    acquisition has no timeout); a reader that is blocked in that acquire() although nothing exists
+	//    that could release the lock proves the lock was left taken. (A failed *timed* acquisition proves
+	//    nothing when the timeout setting is <= 0: both select cases are ready and Go picks at random.)
 	type finalOut struct {
-		vals   []tla.Value
-		leaked []int
+		vals []tla.Value
+		err  string
 	}
 	finCh := make(chan finalOut, 1)
+	var finMgr atomic.Int32
 	go func() {
 		var out finalOut
-		iface := distsys.NewMPCalContextWithoutArchetype().IFace()
 		for m, v := range w.vars {
-			fin := v.mgr.MakeLocalShared()
+			finMgr.Store(int32(m))
+			buf, err := v.mgr.MakeLocalShared().GetState()
 			var val tla.Value
-			var err error
-			for try := 0; try < 3; try++ {
-				val, err = fin.ReadValue(iface)
-				if err == nil {
-					break
-				}
+			if err == nil {
+				err = gob.NewDecoder(bytes.NewReader(buf)).Decode(&val)
 			}
 			if err != nil {
-				out.leaked = append(out.leaked, m)
-				continue
+				out.err = fmt.Sprintf("GetState of manager %d: %v", m, err)
+				break
 			}
-			fin.Abort(iface)
 			out.vals = append(out.vals, val.StripVClock())
 		}
 		finCh <- out
 	}()
-	guard := make(chan struct{})
-	go func() {
-		for i := 0; i < 6*len(w.vars)+8*deadlockTicks; i++ {
-			canary(maxTO)
+	for i := 0; i < 40*preRounds; i++ {
+		select {
+		case out := <-finCh:
+			if out.err != "" {
+				res.Stalled = out.err
+				finish(false, nil)
+				return res
+			}
+			finish(true, out.vals)
+			_ = db.Close()
+			return res
+		default:
 		}
-		close(guard)
-	}()
-	select {
-	case out := <-finCh:
-		if len(out.leaked) > 0 {
-			return leak(out.leaked, "3 consecutive acquisitions with the code's own timeout failed although no sharer and no observer exists any more")
+		canary(maxTO)
+		if i%preRounds == preRounds-1 {
+			if b1, _ := observerBlockedInAcquire(); b1 {
+				m := finMgr.Load()
+				canary(maxTO)
+				if b2, dump := observerBlockedInAcquire(); b2 && finMgr.Load() == m {
+					r := leak([]int{int(m)}, "GetState() of the final reader is blocked in the untimed acquire() although no sharer and no observer exists any more")
+					r.Violations[len(r.Violations)-1].Witness["goroutines"] = dump
+					return r
+				}
+			}
 		}
-		finish(true, out.vals)
-		_ = db.Close()
-	case <-guard:
-		res.Stalled = "final read of the shared variables did not return"
-		finish(false, nil)
 	}
+	res.Stalled = "final read of the shared variables did not return (not blocked in acquire: machine stall)"
+	finish(false, nil)
 	return res
 }
 
